@@ -502,6 +502,14 @@ func c08Profiles(tier Tier) []*explore.Profile {
 		},
 		Menu: func(w *world.World) []world.Action { return hopMenu(w, o, uni.S, []int64{1}, true) },
 	}
+	// the system contract freezes and releases single holdings (ESDTFreeze / ESDTUnFreeze of
+	// token||nonce) between the hops: no control call may alter the metadata of the holding it flags
+	freezeCycle := &explore.Profile{
+		Name: "freeze-cycle", EnvCfg: ledgerEnv(2), Depth: depth - 3, Deadline: tierDeadline(tier), Oracles: orc, Seeds: routes.Seeds,
+		Menu: func(w *world.World) []world.Action {
+			return append(hopMenu(w, o, uni.S, []int64{1}, false), nftFreezeMenu(w, [][]byte{uni.A0, uni.B0, uni.C1})...)
+		},
+	}
 	// two creators (undisciplined system contract): the same (token, nonce) with different hashes
 	two := &explore.Profile{
 		Name: "two-creators", EnvCfg: ledgerEnv(2), Depth: depth - 2, Deadline: tierDeadline(tier), Oracles: orc,
@@ -543,7 +551,7 @@ func c08Profiles(tier Tier) []*explore.Profile {
 		},
 		Menu: func(w *world.World) []world.Action { return hopMenu(w, o, uni.S, []int64{1}, false) },
 	}
-	return []*explore.Profile{create, routes, two, highNonceProfile("high-nonce", tier, orc, 2)}
+	return []*explore.Profile{create, routes, freezeCycle, two, highNonceProfile("high-nonce", tier, orc, 2)}
 }
 
 func init() { LedgerProfiles["C08"] = c08Profiles }
